@@ -652,7 +652,7 @@ func TestC40(t *testing.T) {
 	r.Rule("case = one batch of 1–8 generated points (tag `time`, invalid UTF-8 in measurement/tag key/tag value, only-`time` field, `time` next to valid fields, no field at all, field type conflicting with the schema built by earlier batches or earlier points of the same batch, string field of exactly 1 MiB / 1 MiB+1 / larger) written to a real shard with key validation on or off; non-trivial = the batch mixes accepted and rejected points; distinct = hash of (validate, every point with values and verdict)")
 	r.Assume("schema = one type per (measurement, field)", "whether a rejected point registers its other, new fields in the schema is left open by the statement: resolved after the batch by looking at the shard's schema, and the generator does not build later points whose verdict would depend on it", "a stripped `time` field next to valid fields does not reject the point")
 	per := 10
-	n := r.N(50, 1200)
+	n := r.N(200, 1200)
 	for i := 0; i < n; i++ {
 		c40History(r, i, per)
 	}
